@@ -120,7 +120,7 @@ class Prop(PropBase):
         # ---- sockets
         n_s = 3 if tier == 'quick' else 12
         for k in range(n_s):
-            user, tail = rng.choice([(0, 0), (4, 0), (4, 4), (64, 64)])
+            user, tail = [(4, 4), (64, 64), (0, 0), (4, 0)][k % 4] if k < 4 else rng.choice([(0, 0), (4, 0), (4, 4), (64, 64)])
             cfg = pktgen.Cfg(wait=0, dense=0, pktcb=rng.randrange(2) if k else 1, user=user, tail=tail, lclock=1)
             msop, difop = base + 20 + 2 * k, base + 21 + 2 * k
             s = scen.Scn(f'c13_sock_{k}')
@@ -136,7 +136,7 @@ class Prop(PropBase):
             scn.append(s.text(residual=()))
         # ---- raw API sizes
         for k in range(n_s):
-            user, tail = rng.choice([(0, 0), (4, 4), (64, 64), (300, 0)])
+            user, tail = [(4, 4), (64, 64), (0, 0), (300, 0)][k % 4] if k < 4 else rng.choice([(0, 0), (4, 4), (64, 64), (300, 0)])
             cfg = pktgen.Cfg(wait=0, dense=0, pktcb=rng.randrange(2), user=user, tail=tail, lclock=1)
             s = scen.Scn(f'c13_raw_{k}')
             s.drv(0, l, cfg)
